@@ -74,9 +74,9 @@ func sym(v ssa.Value, d int) string {
 	case *ssa.MakeInterface:
 		return sym(x.X, d+1)
 	case *ssa.Field:
-		return sym(x.X, d+1) + "." + FieldOf(x).Name()
+		return sym(x.X, d+1) + "." + FieldName(FieldOf(x))
 	case *ssa.FieldAddr:
-		return sym(x.X, d+1) + "." + FieldOf(x).Name()
+		return sym(x.X, d+1) + "." + FieldName(FieldOf(x))
 	case *ssa.Alloc:
 		if iv := allocInit(x); iv != nil {
 			return sym(iv, d+1)
@@ -228,7 +228,7 @@ func litSym(a *ssa.Alloc, d int) (string, bool) {
 	var parts []string
 	for i := 0; i < st.NumFields(); i++ {
 		if v := fieldInit(a, i); v != nil {
-			parts = append(parts, st.Field(i).Name()+"="+sym(v, d+1))
+			parts = append(parts, FieldName(st.Field(i))+"="+sym(v, d+1))
 		}
 	}
 	if len(parts) == 0 {
